@@ -24,7 +24,8 @@ def _f(v):
 
 
 def enc(l):
-    return [None if isnan(float(v)) else float(v) for v in l]
+    # (an integer too large for a float is kept as it is: exact integer arithmetic on idx can produce such values, and the rational model follows)
+    return [v if (isinstance(v, int) and not isinstance(v, bool) and abs(v) > 10 ** 300) else (None if isnan(float(v)) else float(v)) for v in l]
 
 
 def mk_track(case):
@@ -67,7 +68,7 @@ def _hasinf(obs):
 
 
 def coq_case(case, obs):
-    if 'exc' in obs or ('err' not in obs and _hasinf(obs)) or case.get('exact') or obs.get('err') == 'Other:OverflowError':
+    if 'exc' in obs or ('err' not in obs and _hasinf(obs)) or case.get('exact') or (obs.get('err') == 'Other:OverflowError' and not case.get('intonly')):
         return None                               # an infinity, a floating-point overflow (e.g. the 1e300 sentinel of an aggregate over no value, squared) or a value decided by cancellation is not a value of the rational model: left to the oracle
     n = len(case['X'])
     ex4 = case.get('extra')
@@ -130,12 +131,24 @@ def gen_programs(rng, n, tier):
             e = e.replace('+', ' + ')
         c['prog'] = e
         out.append(c)
+    for k in range(max(3, n // 150)):
+        # integer-only programs over idx on a track of 6 or 7 fixes: towers of powers whose exact values exceed the range of floats (1e436): integer arithmetic has no overflow
+        c = rand_track(rng); m = rng.choice([6, 7])
+        for key in ('X', 'Y', 'Z'):
+            c[key] = [float(i) for i in range(m)]
+        for key in ('a', 'b', 's'):
+            c[key] = [1] * m
+        c['nodata'] = None; c['intonly'] = True
+        c['prog'] = rng.choice(['SUM{idx^idx^idx^idx^idx}', 'MAX{idx^idx^idx^idx^idx}', 'MIN{idx^idx^idx^idx^idx}', 'c=SUM{idx^idx^idx^idx^idx}', 'idx^idx^idx^idx^idx', 'SUM{idx^idx^idx}', 'SUM{idx^idx^idx^idx^idx}-MAX{idx^idx^idx^idx^idx}'])      # (no literal: a literal is a float)
+        out.append(c)
     return out
 
 
 def oracle_programs(case, obs):
     if 'exc' in obs:
         return 'operate(%r) raised an exception outside the modelled classes: %s' % (case['prog'], obs['exc'])
+    if case.get('intonly') and 'err' in obs:
+        return 'operate(%r) raised %s on a track of %d fixes: an expression over idx alone has an exact integer value at every fix' % (case['prog'], obs['err'], len(case['X']))
     if 'err' not in obs:
         n = len(case['X'])
         if any(k != len(obs['names']) for k in obs['nfeat']):
